@@ -446,6 +446,8 @@ IP_BROADCAST = IPAddr("255.255.255.255")
 
 
 
+_hex_digits = '0123456789abcdefABCDEF'
+
 class IPAddr6 (_AddrBase):
   """
   Represents an IPv6 address.
@@ -505,9 +507,14 @@ class IPAddr6 (_AddrBase):
         addr += ':0:0'
 
       segs = addr.split(':')
-      if addr.count('::') > 1:
-        raise RuntimeError("Bad address format " + str(addr))
-      if len(segs) < 3 or len(segs) > 8:
+      # At most one '::' (which stands for at least one group), eight groups
+      # in total, one to four hex digits per group.
+      left,dc,right = addr.partition('::')
+      groups = [g for side in (left,right) if side for g in side.split(':')]
+      if ('::' in right or len(groups) > (7 if dc else 8)
+          or len(groups) < (0 if dc else 8)
+          or not all(0 < len(g) <= 4 and all(c in _hex_digits for c in g)
+                     for g in groups)):
         raise RuntimeError("Bad address format " + str(addr))
 
       # Parse the two "sides" of the address (left and right of the optional
